@@ -5,6 +5,8 @@ sees what the generator intended: it only sees what the recorder saw. `tags` car
 truth where a property wants an independent oracle (C08: expected method list)."""
 import itertools
 import random
+import re
+import zlib
 
 
 class Case:
@@ -524,6 +526,10 @@ def fam_c16_random(rng, n):
         args = [] if nd else ["deps: &impl A"]
         for _ in range(rng.choice([1, 2, 3, 4, 5, 7, 11])):
             pat, ty = gen_pattern(rng, fn, plain_bias=0.3)
+            # a third of the patterns spell one binding as a raw identifier (`r#arg0` is the identifier `arg0`); decided by a
+            # hash of the text so far, not by the generator's random stream
+            if zlib.crc32((fn + ",".join(args) + pat).encode()) % 3 == 0:
+                pat = re.sub(r"(?<![#\w])(a|b|x|arg0|arg1|_arg1|__arg0|arg2|arg10|foo_|foo|_arg0)\b", lambda mo: "r#" + mo.group(1), pat, count=1)
             args.append(pat + ": " + ty)
         text = "fn " + fn + "(" + ", ".join(args) + ") { unimplemented!() }"
         out.append(Case("c16_random", "Foo" + (", no_deps" if nd else ""), text, tags={}))
@@ -776,6 +782,12 @@ REGRESSION = [
     ("pub(self) Foo", "pub mod m { pub fn foo(d: &impl A) {} }"),
     ("pub(in self::super) Foo", "mod m { pub fn foo(d: &impl A) {} }"),
     ("pub(in super::super::a) Foo", "mod m { pub fn foo(d: &impl A) {} }"),
+    # F21: raw identifiers are the identifiers they spell
+    ("Foo", "fn rawy(_: &impl A, _: i32, r#arg0: i32) {}"),
+    ("Foo", "fn foo(_: &impl A, r#foo: i32) {}"),
+    ("Foo", "fn r#foo(_: &impl A, foo: i32, r#foo_: i32) {}"),
+    ("Foo", "fn bar(_: &impl A, r#_arg1: i32, (_x, _y): (i32, i32), r#arg1: i32, r#bar: u8) {}"),
+    ("", "impl FooImpl for MyType { fn r#f<D>(d: &D, f: i32, (a, b): (i32, i32), r#arg2: i32) {} }"),
 ]
 
 
